@@ -158,3 +158,427 @@ def small_stream(rng):
             kinds.append('ok')
         parts.append(rl + b''.join(hs) + b'\r\n' + body)
     return b''.join(parts), kinds
+
+
+# ------------------------------------------------------------------------------------ C11
+def split_shadow(line):
+    if ' || ' in line:
+        a, b = line.split(' || ', 1)
+        return a, b
+    return line, None
+
+
+class C11(ConnProp):
+    pid = 'C11'
+    observables = 'per try_read after a parse error: result, delivered requests, held descriptors (the model side); the same calls replayed on a freshly created connection (implementation-only oracle)'
+    rule = ('error prefix A (every corruption kind, placed in request line / header / body-length position, with and without '
+            'a partial line already buffered, any segmentation) followed by continuation B (valid requests, header-like '
+            'lines, blank lines, garbage) x schedules; from the first ParseError on, a new HttpConnection with the same limit '
+            'receives exactly the same bytes and descriptors and must behave identically; non-trivial = distinct case in '
+            'which at least one read with data follows the first parse error')
+
+    def cases(self, rng, tier):
+        out = []
+        n = 1200 if tier == 'quick' else 60000
+        for _ in range(n):
+            limit = 51200 if rng.random() < 0.8 else rng.choice([0, 1, 5, 1024, 51200])
+            parts = []
+            kinds = []
+            # zero or more good requests, then the bad one (possibly preceded by a partial element)
+            for _ in range(rng.randint(0, 2)):
+                parts.append(reqgen.gen_request(rng, limit)[0])
+            bad, kind = reqgen.gen_bad_request(rng, limit)
+            kinds.append(kind)
+            parts.append(bad)
+            # continuation
+            for _ in range(rng.randint(1, 4)):
+                r = rng.random()
+                if r < 0.5:
+                    parts.append(reqgen.gen_request(rng, limit)[0])
+                elif r < 0.65:
+                    parts.append(rng.choice([b'X-a: b\r\n\r\n', b'\r\n', b'\r\n\r\n', b'Content-Length: 3\r\n\r\nabc', b'Host: x\r\n']))
+                elif r < 0.8:
+                    parts.append(reqgen.gen_bad_request(rng, limit)[0])
+                else:
+                    parts.append(bytes(rng.choice(b'GETPU /HTP1.\r\n: x') for _ in range(rng.randint(1, 40))))
+            stream = b''.join(parts)
+            style = rng.choice(STYLES + ['bytewise', 'cuts'])
+            if style == 'bytewise' and len(stream) > 2500:
+                style = 'fixed'
+            ops = [[12]] + reqgen.schedule(rng, stream, style, fds=(rng.random() < 0.3))
+            # the drain stops at the first error: keep reading afterwards
+            ops += [[2, rng.choice([1, 3, 50, 1 << 20])] for _ in range(6)]
+            out.append(self.mk(limit, stream, ops, {'kind': 'A:' + kind + '/' + style}))
+        for _ in range(200 if tier == 'quick' else 20000):
+            stream, kinds = small_stream(rng)
+            stream = stream + small_stream(rng)[0]
+            ops = [[12]] + reqgen.schedule(rng, stream, rng.choice(STYLES), buf=32) + [[2, rng.choice([1, 5, 1 << 20])] for _ in range(6)]
+            out.append(self.mk(51200, stream, ops, {'kind': 'small', 'small': True}))
+        return out
+
+    def project(self, line):
+        return split_shadow(line)[0]
+
+    def oracle(self, cases, impl):
+        v = []
+        for cid, t, m in cases:
+            for ln in impl.get(cid, []):
+                a, b = split_shadow(ln)
+                if b is None:
+                    continue
+                fa = parse_rd(a)
+                mb = re.match(r'rd=(.*?) held=(\d+) left=(\d+)(.*)$', b)
+                if not mb or 'rd' not in fa:
+                    continue
+                sreqs = [x for x in mb.group(4).split(' | ') if x]
+                same = (fa['rd'] == mb.group(1) and str(fa['held']) == mb.group(2) and mb.group(3) == '0'
+                        and fa['reqs'] == sreqs)
+                if fa['sys'] == 0:
+                    same = True     # the main call made no system call (nothing to replay)
+                if not same:
+                    v.append({'case': t, 'small': bool(m.get('small')),
+                              'oracle': 'after the first parse error, a new connection with the same limit fed the same bytes',
+                              'expected': ('fresh: ' + b)[:400], 'observed': a[:400], 'signature': 'C11:not-as-fresh'})
+                    break
+        return v
+
+    def nontrivial(self, tree, meta, impl_lines):
+        seen_err = False
+        for ln in impl_lines:
+            a, b = split_shadow(ln)
+            if b is not None and ' rd=Ok' in a:
+                return (bytes(tree[3]), repr(tree[4]))
+        return None
+
+
+# ------------------------------------------------------------------------------------ C12
+class C12(ConnProp):
+    pid = 'C12'
+    observables = 'per try_read: the descriptor tags handed over with each delivered request and the number still held; descriptors left open after dropping requests and connection'
+    rule = ('error-free pipelined streams x schedules x 0..253 tagged descriptors per read (including reads that complete '
+            'zero, one or several requests and the read that hits EOF); each descriptor is a memfd whose content is its tag; '
+            'non-trivial = distinct case with at least two descriptors and one delivered request')
+
+    def cases(self, rng, tier):
+        out = []
+        n = 900 if tier == 'quick' else 40000
+        for _ in range(n):
+            stream, kinds = reqgen.gen_stream(rng, 51200, p_bad=0.1, max_req=5)
+            style = rng.choice(['random', 'random', 'cuts', 'whole'])
+            ops = reqgen.schedule(rng, stream, style, fds=True)
+            if rng.random() < 0.5:
+                ops.append([0, 10, rng.choice([0, 1, 2, 5])])      # the read that hits EOF
+            out.append(self.mk(51200, stream, ops, {'kind': style}))
+        for _ in range(150 if tier == 'quick' else 10000):
+            stream, kinds = small_stream(rng)
+            ops = reqgen.schedule(rng, stream, 'random', fds=True, buf=32)
+            out.append(self.mk(51200, stream, ops, {'kind': 'small', 'small': True}))
+        return out
+
+    def oracle(self, cases, impl):
+        v = []
+        for cid, t, m in cases:
+            lines = impl.get(cid, [])
+            ops = t[4]
+            pending = []
+            nxt = 0
+            bad = None
+            by_i = {}
+            for ln in lines:
+                if ' LEAK ' in ln:
+                    bad = ('no descriptor left open after requests and connection are dropped', ln)
+                    break
+                f = parse_rd(ln)
+                by_i.setdefault(int(f['i']), []).append(f)
+            if not bad:
+                for i, op in enumerate(ops):
+                    for f in by_i.get(i, []):
+                        if 'rd' not in f:
+                            continue
+                        k = 0
+                        if op[0] == 0 and f['sys'] == 1:
+                            k = min(op[2], 253)
+                        pending += list(range(nxt, nxt + k))
+                        nxt += k
+                        got = [files_of(r) for r in f['reqs']]
+                        if got:
+                            want = [pending] + [[]] * (len(got) - 1)
+                            if got != want:
+                                bad = ('all pending descriptors to the first request completed by this read, none to later ones: %r' % want, repr(got))
+                                break
+                            pending = []
+                        if f['rd'].startswith('Err(ParseError'):
+                            pending = []
+                        if f['held'] != len(pending):
+                            bad = ('%d descriptors held by the connection' % len(pending), 'held=%d' % f['held'])
+                            break
+                    if bad:
+                        break
+            if bad:
+                v.append({'case': t, 'small': bool(m.get('small')), 'oracle': 'tag conservation, in arrival order',
+                          'expected': bad[0][:300], 'observed': bad[1][:300], 'signature': 'C12:' + bad[0].split(':')[0][:40]})
+        return v
+
+    def nontrivial(self, tree, meta, impl_lines):
+        nf = sum(min(o[2], 253) for o in tree[4] if o[0] == 0)
+        if nf >= 2 and any(' | REQ' in l for l in impl_lines):
+            return (bytes(tree[3]), repr(tree[4]))
+        return None
+
+
+# ------------------------------------------------------------------------------------ C13
+def expect_request(rng, limit, n, version, expect_kind):
+    hs = []
+    if expect_kind == 'yes':
+        hs.append(reqgen.expect_line(rng, ok=True))
+    elif expect_kind == 'unsupported':
+        hs.append(reqgen.expect_line(rng, ok=False))
+    if n is not None:
+        hs.insert(rng.randint(0, len(hs)), b'Content-Length: %d' % n)
+    if rng.random() < 0.4:
+        hs.insert(rng.randint(0, len(hs)), b'X-Other: 1')
+    head = rng.choice([b'PUT', b'PATCH', b'GET']) + b' /e ' + version + b'\r\n' + b''.join(h + b'\r\n' for h in hs) + b'\r\n'
+    body = bytes(rng.choice(b'xy\r\n') for _ in range(n or 0)) if (n or 0) <= limit else b''
+    return head, body
+
+
+class C13(ConnProp):
+    pid = 'C13'
+    observables = 'bytes offered by try_write after every read (the queued interim responses), pending_write, deliveries'
+    rule = ('streams mixing requests with Expect (any case, padding, unsupported expectation values) and without, '
+            'Content-Length in {absent, 0, 1.., L, L+1}, both versions, pipelined; schedules that deliver the header block '
+            'alone, then flush the output, then the body; non-trivial = distinct case with at least one Expect request')
+
+    def cases(self, rng, tier):
+        out = []
+        n = 1200 if tier == 'quick' else 50000
+        for _ in range(n):
+            limit = rng.choice([3, 8, 1024, 2500])
+            ops = []
+            stream = b''
+            want = []     # expected interim responses (versions) in order
+            stopped = False
+            nreq = rng.randint(1, 4)
+            for _ in range(nreq):
+                ek = rng.choice(['yes', 'yes', 'no', 'unsupported'])
+                nn = rng.choice([None, 0, 1, 2, limit - 1, limit, limit + 1, 17])
+                if nn is not None and nn < 0:
+                    nn = 0
+                ver = rng.choice([b'HTTP/1.0', b'HTTP/1.1'])
+                head, body = expect_request(rng, limit, nn, ver, ek)
+                stream += head + body
+                if not stopped:
+                    if ek == 'yes' and nn and 0 < nn <= limit:
+                        want.append(ver)
+                    if nn is not None and nn > limit:
+                        stopped = True
+                # schedule: headers alone, flush, then the body (or everything at once)
+                if rng.random() < 0.6:
+                    cut = rng.choice([len(head), len(head), len(head) - 1, len(head) + 1, max(1, len(head) - 2)])
+                    ops += [[0, cut, 0], [3, 100000], [3, 100000]]
+                    ops += [[2, rng.choice([1, 1 << 20])], [3, 100000], [3, 100000]]
+                else:
+                    ops += [[2, rng.choice([1, 7, 1 << 20])]]
+                if stopped:
+                    break
+            ops += [[2, 1 << 20]] + [[3, 100000]] * 6
+            out.append(self.mk(limit, stream, ops, {'kind': 'expect-mix', 'want': [w.decode() for w in want],
+                                                   'has_expect': True}))
+        return out
+
+    def oracle(self, cases, impl):
+        v = []
+        for cid, t, m in cases:
+            got = []
+            for ln in impl.get(cid, []):
+                f = parse_rd(ln)
+                if 'wr' in f and f['off'] not in ('none',):
+                    b = bytes.fromhex(f['off'].replace('-', ''))
+                    mm = re.match(rb'(HTTP/1\.[01]) 100 \r\n', b)
+                    if mm:
+                        # a 100 must be the whole response and carry no body
+                        got.append(mm.group(1).decode())
+                        if b'Content-Length' in b or not b.endswith(b'\r\n\r\n'):
+                            got.append('malformed-100')
+            if got != m.get('want'):
+                v.append({'case': t, 'oracle': 'interim responses on the wire, counted per request from the generator\'s own bookkeeping',
+                          'expected': repr(m.get('want')), 'observed': repr(got), 'signature': 'C13:interim-responses'})
+        return v
+
+    def nontrivial(self, tree, meta, impl_lines):
+        return (bytes(tree[3]), repr(tree[4])) if meta.get('want') else None
+
+
+# ------------------------------------------------------------------------------------ C04
+class C04(ConnProp):
+    pid = 'C04'
+    observables = 'the error value and the read that returns it; delivered bodies'
+    rule = ('limits L in {0..8,1023,1024,1025,51199,51200,51201,2^32-1} x declared lengths around L (x Expect) with the '
+            'stream cut right after the header terminator; request lines and header lines of 1000..1100 bytes at varying '
+            'offsets after earlier requests and bodies x schedules; non-trivial = distinct case whose declared length is '
+            'within 2 of L or whose long line is within 3 bytes of the buffer size')
+
+    def cases(self, rng, tier):
+        out = []
+        reps = 3 if tier == 'quick' else 60
+        for L in reqgen.LIMITS:
+            for d in (-2, -1, 0, 1, 2, 1000):
+                n = L + d
+                if n < 0 or n >= 2 ** 32:
+                    continue
+                for _ in range(reps):
+                    pre = b''.join(reqgen.gen_request(rng, 51200 if L > 51200 else L)[0] for _ in range(rng.randint(0, 2)))
+                    hs = [b'Content-Length: %d' % n]
+                    if rng.random() < 0.4:
+                        hs.append(b'Expect: 100-continue')
+                    rng.shuffle(hs)
+                    head = b'PUT /x HTTP/1.1\r\n' + b''.join(h + b'\r\n' for h in hs) + b'\r\n'
+                    nb = min(n, 3000)
+                    stream = pre + head + b'b' * nb
+                    # deliver exactly up to the header terminator first
+                    ops = [[2, 1 << 20]] if rng.random() < 0.3 else \
+                        reqgen.schedule(rng, pre + head, rng.choice(STYLES))[:-1] + [[0, 1, 0]] * 0
+                    # exact cut: consume pre+head fully (bounded takes), then the rest
+                    ops = cut_exact(rng, len(pre) + len(head)) + [[3, 100000], [2, rng.choice([1, 1 << 20])]]
+                    out.append(self.mk(L, stream, ops, {'kind': 'limit', 'L': L, 'n': n, 'headlen': len(pre) + len(head),
+                                                        'near': abs(d) <= 2}))
+        # line lengths around the buffer size, at varying offsets
+        m = 400 if tier == 'quick' else 30000
+        for _ in range(m):
+            pre = b''.join(reqgen.gen_request(rng, 51200)[0] for _ in range(rng.randint(0, 2)))
+            ll = rng.choice([1000, 1020, 1021, 1022, 1023, 1024, 1025, 1026, 1027, 1030, 1100])   # incl. CRLF
+            where = rng.choice(['reqline', 'header', 'header2'])
+            if where == 'reqline':
+                u = b'/' + b'u' * (ll - 2 - len(b'GET  HTTP/1.1') - 1)
+                bad = b'GET ' + u + b' HTTP/1.1\r\n\r\n'
+            else:
+                name = b'X-Long: '
+                line = name + b'v' * (ll - 2 - len(name))
+                extra = b'X-A: b\r\n' if where == 'header2' else b''
+                bad = b'GET / HTTP/1.1\r\n' + extra + line + b'\r\n\r\n'
+            stream = pre + bad + reqgen.gen_request(rng, 51200)[0]
+            ops = reqgen.schedule(rng, stream, rng.choice(STYLES))
+            out.append(self.mk(51200, stream, ops, {'kind': 'line-' + where, 'line': ll, 'where': where,
+                                                    'near': abs(ll - 1024) <= 3, 'npre': pre.count(b' HTTP/1.')}))
+        # unterminated lines: rejected exactly when BUF bytes of them have arrived
+        for k in ([1022, 1023, 1024, 1025] if True else []):
+            for where in ('reqline', 'header'):
+                s = (b'GET /' + b'u' * k) if where == 'reqline' else (b'GET / HTTP/1.1\r\nX: ' + b'v' * k)
+                out.append(self.mk(51200, s, [[2, 1 << 20]], {'kind': 'unterminated', 'near': True}))
+        return out
+
+    def oracle(self, cases, impl):
+        v = []
+        for cid, t, m in cases:
+            lines = impl.get(cid, [])
+            d = deliveries(lines)
+            if m['kind'] == 'limit':
+                L, n = m['L'], m['n']
+                errs = [x for x in d if x.startswith('Err(')]
+                want_err = 'Err(ParseError(SizeLimitExceeded(%d,%d)))' % (L, n)
+                if n > L:
+                    # reported by the read that completes the header block: ops[0..k] consume exactly headlen bytes
+                    first = None
+                    for ln in lines:
+                        f = parse_rd(ln)
+                        if 'rd' in f and f['rd'].startswith('Err(ParseError'):
+                            first = f
+                            break
+                    ncut = len(cut_exact_sizes(m['headlen']))
+                    if not errs or errs[0] != want_err:
+                        v.append(self.viol(t, 'n > L  =>  ' + want_err, errs[0] if errs else 'no error', 'size-iff'))
+                    elif first is not None and int(first['i']) >= ncut:
+                        v.append(self.viol(t, 'reported by the read that completes the header block (op < %d)' % ncut,
+                                           'reported at op %s' % first['i'], 'size-early'))
+                else:
+                    if errs and 'SizeLimitExceeded' in errs[0]:
+                        v.append(self.viol(t, 'n <= L  =>  accepted', errs[0], 'size-iff'))
+                for x in d:
+                    mm = re.search(r' cl=(\d+) .* body=some:([0-9a-f]+)', x)
+                    if mm and (len(mm.group(2)) // 2 != int(mm.group(1)) or int(mm.group(1)) > L):
+                        v.append(self.viol(t, 'delivered body has the declared length and is within the limit', x[:200], 'body-bound'))
+            elif m['kind'].startswith('line-'):
+                ll = m['line']
+                errs = [x for x in d if x.startswith('Err(')]
+                nreq = len([x for x in d if x.startswith('REQ')])
+                if ll > 1024:
+                    want = 'InvalidRequest' if m['where'] == 'reqline' else 'HeaderError(SizeLimitExceeded'
+                    if not errs or want not in errs[0] or nreq != m['npre']:
+                        v.append(self.viol(t, 'line of %d bytes incl. CRLF rejected for its length after %d requests' % (ll, m['npre']),
+                                           (errs[0] if errs else 'no error')[:120] + ' after %d requests' % nreq, 'line-iff'))
+                else:
+                    if nreq < m['npre'] + 1:
+                        v.append(self.viol(t, 'line of %d bytes incl. CRLF accepted' % ll,
+                                           (errs[0] if errs else 'no error')[:200], 'line-iff'))
+        return v
+
+    def viol(self, t, exp, obs, sig):
+        return {'case': t, 'oracle': 'the iff evaluated on the implementation', 'expected': exp, 'observed': obs,
+                'signature': 'C04:' + sig}
+
+    def nontrivial(self, tree, meta, impl_lines):
+        return (tree[2], bytes(tree[3]), repr(tree[4])) if meta.get('near') else None
+
+
+def cut_exact_sizes(n, buf=1024):
+    """sizes of reads that consume exactly n bytes when each read has at least `buf//2` room... conservative:
+    chunks of at most 256 bytes never exceed the room left by a partial line shorter than buf-256"""
+    out = []
+    while n > 0:
+        k = min(n, 200)
+        out.append(k)
+        n -= k
+    return out
+
+
+def cut_exact(rng, n):
+    return [[0, k, 0] for k in cut_exact_sizes(n)]
+
+
+# ------------------------------------------------------------------------------------ C03 (connection part)
+class C03Conn:
+    """random operation sequences that continue after every kind of error"""
+
+    @staticmethod
+    def cases(rng, tier, mk):
+        out = []
+        n = 900 if tier == 'quick' else 40000
+        for _ in range(n):
+            r = rng.random()
+            if r < 0.4:
+                stream, _ = reqgen.gen_stream(rng, 51200, p_bad=0.6)
+            elif r < 0.7:
+                alpha = rng.choice([bytes(range(256)), b'\r\n', b'\x00\r\n\x80\xff :GET/HTP1.', b'GET / HTTP/1.1\r\n'])
+                stream = bytes(rng.choice(alpha) for _ in range(rng.choice([0, 1, 10, 100, 1500, 5000])))
+            else:
+                good = bytearray(reqgen.gen_stream(rng, 51200, p_bad=0.2)[0])
+                for _ in range(rng.randint(1, 8)):
+                    if good:
+                        good[rng.randrange(len(good))] = rng.choice([0, 13, 10, 0x80, 0xff, 32, 58])
+                stream = bytes(good)
+            ops = []
+            for _ in range(rng.randint(3, 40)):
+                q = rng.random()
+                if q < 0.5:
+                    ops.append([0, rng.choice([1, 2, 10, 100, 1000, 1024, 4096]), rng.choice([0, 0, 0, 1, 3])])
+                elif q < 0.58:
+                    ops.append([1, rng.choice([11, 4, 104, 9])])
+                elif q < 0.68:
+                    ops.append([7, [rng.randint(0, 1), rng.randint(0, 10), []]])
+                elif q < 0.85:
+                    ops.append(rng.choice([[3, 1], [3, 50], [3, 100000], [4], [5, 32], [3, 0]]))
+                elif q < 0.9:
+                    ops.append([9])
+                elif q < 0.95:
+                    ops.append([10, rng.choice(reqgen.LIMITS)])
+                else:
+                    ops.append([2, rng.choice([1, 100, 1 << 20])])
+            ops += [[2, 1 << 20], [2, 1 << 20], [0, 5, 0]]
+            out.append(mk(51200, stream, ops, {'kind': 'conn-random-ops'}))
+        # long streams up to ~60 KiB
+        for _ in range(6 if tier == 'quick' else 300):
+            n = rng.choice([20000, 40000, 61440])
+            body = bytes(rng.choice(b'ab\r\n') for _ in range(n))
+            s = b'PUT /big HTTP/1.1\r\nContent-Length: %d\r\n\r\n' % n + body + b'GET / HTTP/1.1\r\n\r\n'
+            out.append(mk(65536, s, [[2, rng.choice([1 << 20, 1000, 333])]], {'kind': 'conn-60k'}))
+        return out
